@@ -1,4 +1,5 @@
 import MdsVerif.Proofs.Cursor
+import MdsVerif.Proofs.CursorHist
 /-!
 # C03 — `stree.Cursor` navigation is consistent with key order and tree structure
 
@@ -241,6 +242,24 @@ theorem invalid_noop [Inhabited α] :
 
 /-- `Clone` is a copy (value semantics) -/
 theorem clone_eq (c : Cursor α) : clone c = c := rfl
+
+/-- **the hypotheses above hold in every reachable state**: after any history of tree operations
+(New/Add/Replace/Remove/Clear/Clone with any β — the C01 model, run by the very `step` of the
+driver) and cursor operations (Cursor(k), Root, nil, Clone, Next, Prev, Left, Right, Up, Min, Max,
+queries), every cursor register is invalid or a well-formed position in a search tree.  So
+`next_is_succ`, `next_least_greater`, `below_left_right`, … apply to every cursor any history
+produces — on all tree shapes reachable by operation histories, for all sequences of moves. -/
+theorem C03_reachable (cmp : α → α → Ordering) [Std.TransCmp cmp] (ops : List (MdsVerif.Model.Cursor.Op α)) :
+    let s := ops.foldl (fun s op => (MdsVerif.Model.Cursor.step cmp (sortCompact cmp) s op).1) {}
+    ∀ c cur, s.curs.get c = some cur →
+      match cur with
+      | none => True
+      | some p => p.WF ∧ Ordered cmp p.root := by
+  intro s c cur hg
+  have := (inv_reachable cmp MdsVerif.Props.C01.sortCompact_spec ops).2 c cur hg
+  cases cur with
+  | none => trivial
+  | some p => exact this
 
 /-! ## non-vacuity: a skewed search tree `4 → (1 → · , 3 → (2)) , 5` walked with the model -/
 
